@@ -1522,6 +1522,81 @@ def r_sumstart(E):
     return res
 
 
+# ---------------------------------------------------------------------------------------------- R-DROPPED
+_DR_POSITIVE = '''
+def parse(text, fmt):
+    day, _, time_of_day = text.partition(" ")
+    start = to_date(day)
+    if time_of_day:
+        t = to_time(time_of_day)
+        start.replace(hour=t.hour, minute=t.minute)
+    return start
+def utc(index, zone):
+    index.tz_localize(zone)
+    return index
+'''
+_DR_NEGATIVE = '''
+def parse(text, fmt):
+    day, _, time_of_day = text.partition(" ")
+    start = to_date(day)
+    if time_of_day:
+        t = to_time(time_of_day)
+        start = start.replace(hour=t.hour, minute=t.minute)
+    return start
+def clean(df):
+    df.replace(0, 1, inplace=True)
+    return df
+'''
+_PURE_METHODS = {"replace": "datetime / str .replace() returns a new object", "tz_localize": "returns a new index / frame",
+                 "tz_convert": "returns a new index / frame", "astimezone": "returns a new datetime",
+                 "strip": "returns a new string", "lower": "returns a new string", "upper": "returns a new string",
+                 "normalize": "returns a new timestamp", "round": "returns a new value"}
+
+
+def dropped_results(tree):
+    """[(function, statement, method)]: a call of a method that only *returns* a new value (datetime.replace, tz_localize,
+    str.strip …) used as a statement: the result is thrown away and the receiver is what it was"""
+    out = []
+    for fn in [f for f in ast.walk(tree) if isinstance(f, ast.FunctionDef)]:
+        for st in [x for x in ast.walk(fn) if isinstance(x, ast.Expr) and isinstance(x.value, ast.Call)
+                   and isinstance(x.value.func, ast.Attribute) and x.value.func.attr in _PURE_METHODS]:
+            c = st.value
+            if any(k.arg == "inplace" for k in c.keywords):
+                continue
+            if c.func.attr == "round" and not isinstance(c.func.value, ast.Name):
+                continue
+            if c.func.attr == "round":
+                continue      # (the explainable classes round in place)
+            if isinstance(c.func.value, ast.Call) and norm(c.func.value.func) == "super":
+                continue
+            out.append((fn, st, c.func.attr))
+    return out
+
+
+@rule("R-DROPPED")
+def r_dropped(E):
+    pm = E.pm
+    res = RuleResult("R-DROPPED", "the result of a method that only returns a new value — `datetime.replace`, `tz_localize`, "
+                                  "`tz_convert`, `astimezone`, `str.strip` … — is not thrown away: as a statement the call "
+                                  "changes nothing, the receiver keeps its old hour / zone")
+    for mod, (rel, tree, src) in sorted(pm.modules.items()):
+        res.instances += len([x for x in ast.walk(tree) if isinstance(x, ast.Expr) and isinstance(x.value, ast.Call)])
+        for fn, st, m in dropped_results(tree):
+            res.findings.append(Finding(
+                "R-DROPPED", f"{rel}:{fn.name} :: result of .{m}() dropped",
+                f"{fn.name} calls `{norm(st)[:80]}` as a statement: {_PURE_METHODS[m]}, it does not change its receiver — the "
+                f"value used afterwards is the old one (a start date parsed back without its time of day: every series "
+                f"read from JSON restarts at midnight)", rel, st.lineno, fn.name, {"clauses": _area(rel)}))
+    pos = dropped_results(set_parents(ast.parse(_DR_POSITIVE)))
+    neg = dropped_results(set_parents(ast.parse(_DR_NEGATIVE)))
+    if len(pos) != 2 or neg:
+        raise AnalysisError(f"R-DROPPED: embedded examples: {len(pos)} of 2 positive recognised, {len(neg)} false reports")
+    res.instances += 2
+    res.samples = [{"embedded_positive_examples_recognised": 2, "embedded_twins_silent": True}]
+    res.floor = 100
+    return res
+
+
 # ---------------------------------------------------------------------------------------------- R-ORDEFAULT
 @rule("R-ORDEFAULT")
 def r_ordefault(E):
